@@ -61,6 +61,10 @@ struct list_fuzz
         }
         while (!live.empty() && !bad) dealloc(next());
         if (!bad && list.capacity() != nodes) { std::printf("everything released but capacity() == %zu of %zu\n", list.capacity(), nodes); bad = 1; }
+        // drain: the list must hand out every node of the block exactly once (a node lost or linked twice by a release shows here)
+        for (std::size_t i = 0; i < nodes && !bad; ++i) alloc(ns);
+        if (!bad && (live.size() != nodes || list.capacity() != 0)) { std::printf("drain: %zu of %zu nodes handed out, capacity() == %zu\n", live.size(), nodes, list.capacity()); bad = 1; }
+        while (!live.empty() && !bad) dealloc(next());
         return bad;
     }
 };
